@@ -52,7 +52,7 @@ func VH_C07_batch() {
 	if explicitContinue {
 		b.WithBatchErrorHandling(true)
 	}
-	b.execFallbackFunc = func(p any, err error) (any, error) {
+	fb := func(p any, err error) (any, error) {
 		r, isRes := p.(Result)
 		vAssert(isRes, "fallback-receives-the-item")
 		k := bIndex(r)
@@ -73,6 +73,7 @@ func VH_C07_batch() {
 		})
 		return out, ferr
 	}
+	WithExecFallbackFunc(fb).apply(b.CustomNode)
 	act, err := Run(m.ctx, b, NewSharedStore())
 	_ = act
 	if err != nil || m.posts != 1 || len(m.postRes) != m.n {
